@@ -8,7 +8,7 @@ import (
 )
 
 // letters of the single-dash alphabet: a, b flags; n increment; s string; i int; é string (multibyte, valued); ß flag (multibyte); z undeclared
-var c07Letters = []string{"a", "b", "n", "s", "i", "é", "ß", "z", "1"}
+var c07Letters = []string{"a", "b", "n", "s", "i", "é", "ß", "z", "1", "l"}
 
 func defC07(mode int, late bool) *ph.Def {
 	return &ph.Def{Mode: mode, LateMode: late, Unknown: 2, Root: ph.CmdDef{Name: "prog",
@@ -31,7 +31,7 @@ func defC07(mode int, late bool) *ph.Def {
 }
 
 var c07Flag = map[string]bool{"a": true, "b": true, "n": true, "ß": true, "1": true}
-var c07Declared = map[string]bool{"a": true, "b": true, "n": true, "s": true, "i": true, "é": true, "ß": true, "1": true}
+var c07Declared = map[string]bool{"a": true, "b": true, "n": true, "s": true, "i": true, "é": true, "ß": true, "1": true, "l": true}
 
 // c07Rewrite returns the documented rewriting of the single-dash token -LETTERS[=v] and whether the
 // statement's preconditions hold in this mode.
@@ -229,8 +229,8 @@ func init() {
 	parserJudges["C07"] = judgeC07
 	register(&Check{
 		ID:        "C07",
-		QuickSecs: 120, ThoroSecs: 900,
-		Rule: "input-space exploration, metamorphic: every single-dash token -LETTERS[=v] with LETTERS a string of length 1..Ll over 9 letters (two flags, increment, string, int, a multibyte valued option, a multibyte flag, an undeclared letter, a digit that is a declared flag) and v in {none, x, 5, =y, `a b`, empty} " +
+		QuickSecs: 300, ThoroSecs: 900,
+		Rule: "input-space exploration, metamorphic: every single-dash token -LETTERS[=v] with LETTERS a string of length 1..Ll over 10 letters (two flags, increment, string, int, a multibyte valued option, a multibyte flag, an undeclared letter, a digit that is a declared flag, a string list) and v in {none, x, 5, =y, `a b`, empty, `a,b`, a value with a line break} " +
 			"in 8 contexts (alone, followed by a value, followed by an option, after a positional, after a command, after a command and followed by a value, right behind an optional numeric option, right behind a numeric slice with room) x 3 modes x SetMode before/after the commands are declared; the complete outcome of Parse on the token is compared with Parse on its documented rewriting " +
 			"(restricted to the statement's preconditions in Bundling mode); plus every long-only argv of length <= 3 over 14 tokens (one-letter abbreviations of long names included) compared across the three modes; distinct_nontrivial = distinct (definition, argv) pairs compared",
 		Assume: []string{"letters outside the alphabet and tokens longer than Ll are not covered"},
@@ -240,7 +240,7 @@ func init() {
 				ll = 5
 			}
 			res := c.Res
-			attaches := []*string{nil, sp("x"), sp("5"), sp("=y"), sp("a b"), sp("")}
+			attaches := []*string{nil, sp("x"), sp("5"), sp("=y"), sp("a b"), sp(""), sp("a,b"), sp("a\nb")}
 			res.Bounds = map[string]any{"Ll": ll, "letters": c07Letters, "contexts": c07Contexts}
 			longAlpha := []string{"--a", "--s=v", "--s", "v", "--long=x", "--lo=x", "--an", "--i=3", "--zz", "c", "--é=w", "--l=y", "--f", "--1"}
 			units := len(c07Letters) + len(longAlpha)
